@@ -22,7 +22,7 @@ def compile_matrix(ctx):
                 if q and not (dim == 3 or real == 'double'): variants = variants[:1]
                 for v in variants:
                     base = dict(REALT=real, ORD=ordn); base.update(v)
-                    for wrapper, extra in (('w_tree.cpp', ()), ('w_tsm.cpp', ()), ('w_omp.cpp', ('-fopenmp', '-fopenmp-version=45')), ('w_periodic.cpp', ())):
+                    for wrapper, extra in (('w_tree.cpp', ()), ('w_tsm.cpp', ()), ('w_omp.cpp', ('-fopenmp', '-fopenmp-version=45')), ('w_omp.cpp', ('-fopenmp', '-fopenmp-version=50')), ('w_periodic.cpp', ())):
                         if wrapper == 'w_periodic.cpp' and ordn != 1: continue
                         if wrapper in ('w_tsm.cpp', 'w_omp.cpp') and (v or (q and dim in (1, 4) and real == 'float')): continue
                         if wrapper == 'w_omp.cpp' and ordn == 1: continue
